@@ -19,3 +19,34 @@ pub fn preempt(point: &'static str) {
         f(point)
     }
 }
+
+static CONTROL_LOG: std::sync::Mutex<Vec<(usize, u64, u64)>> = std::sync::Mutex::new(Vec::new());
+
+/// Records a control frame handed by `poll_control` to the role's driver:
+/// (connection key, frame type, id carried by the frame or 0).
+pub fn log_control_frame<B>(conn: usize, frame: &crate::proto::frame::Frame<B>) {
+    use crate::proto::frame::Frame;
+    let entry = match frame {
+        Frame::Settings(_) => (0x4, 0),
+        Frame::Goaway(id) => (0x7, id.into_inner()),
+        Frame::CancelPush(id) => (0x3, crate::proto::varint::VarInt::from(*id).into_inner()),
+        Frame::MaxPushId(id) => (0xd, crate::proto::varint::VarInt::from(*id).into_inner()),
+        Frame::Data(_) => (0x0, 0),
+        Frame::Headers(_) => (0x1, 0),
+        Frame::PushPromise(_) => (0x5, 0),
+        _ => (u64::MAX, 0),
+    };
+    if let Ok(mut g) = CONTROL_LOG.lock() {
+        g.push((conn, entry.0, entry.1));
+    }
+}
+
+/// Drains the control-frame log of the whole process.
+pub fn take_control_log() -> Vec<(usize, u64, u64)> {
+    CONTROL_LOG.lock().map(|mut g| std::mem::take(&mut *g)).unwrap_or_default()
+}
+
+/// The key under which a connection's frames are logged (address of its shared state).
+pub fn conn_key(shared: &std::sync::Arc<crate::shared_state::SharedState>) -> usize {
+    std::sync::Arc::as_ptr(shared) as usize
+}
